@@ -21,10 +21,16 @@ Local Open Scope Z_scope.
    sequence of PBR:PC values at which Step fetches = the instruction starts the emitter recorded (block moves
    repeating their own start), final (M, X) = (not IsM16bit, not IsX16bit); and an immediate method is refused
    iff its operand size differs from the tracked width.
-   PROVED here (C07_couple, instantiated per run as C07_partial_<model>): the same with "no control transfer
-   that is taken" strengthened to "no branch / jump / call / return / BRK / COP / XCE / STP / WAI / MVN / MVP
-   instruction at all" -- what is missing is the case of a conditional branch that happens not to be taken
-   (its contract depends on the flag values of the run) and the block moves; the refusal half is complete. *)
+   PROVED here (C07_couple / C07_couple_patched, instantiated per run as C07_partial_<model>): the same where the
+   program may contain, besides the 227 straight-line opcodes, the eight CONDITIONAL BRANCHES ($10 $30 $50 $70 $90 $B0
+   $D0 $F0; rel8 and label-taking emitter methods) under the run hypothesis [nottaken]: whenever the CPU reaches a
+   conditional branch its condition is false.  With a label-taking method the operand byte is a placeholder until
+   Finalize: C07_couple_patched lets memory hold ANY byte there (a branch that is not taken never uses it).
+   Still missing (hence _partial): the block moves MVN / MVP (the fetch sequence stutters on the instruction's own
+   start), WAI / STP (halt), XCE (may leave native mode), and every instruction that always transfers control (BRA BRL
+   JMP JML JSR JSL RTS RTL RTI BRK COP) or restores M / X from the stack (PLP); the refusal half is complete.
+   The statement of the previous version (no branch instruction at all) is the instance [brs := fun _ => false]:
+   C07_couple_nobranch. *)
 
 (* ------------------------------------------------------------------ straight-line opcodes *)
 (* excluded: branches (taken or not is a property of the run, not of the program text), jumps, calls,
@@ -44,6 +50,68 @@ Definition new_x (op x o : Z) : Z := if op =? 194 then rep_val x o 4 else if op 
 
 Definition addr24 (rk pc : Z) : Z := rk * 65536 + pc.
 
+(* ------------------------------------------------------------------ conditional branches *)
+(* BPL BMI BVC BVS BCC BCS BNE BEQ (BRA / BRL are always taken: never sequential) *)
+Definition cond_ops : list Z := [16; 48; 80; 112; 144; 176; 208; 240].
+Definition cond_branch (op : Z) : bool := existsb (Z.eqb op) cond_ops.
+Definition cond_mn (mn : ISA.mnem) : bool :=
+  match mn with BPL | BMI | BVC | BVS | BCC | BCS | BNE | BEQ => true | _ => false end.
+
+(* the branch condition, from the status flags N V C Z given as 0 / 1 (WDC: BPL N=0, BMI N=1, BVC V=0, BVS V=1,
+   BCC C=0, BCS C=1, BNE Z=0, BEQ Z=1); anything else counts as taken *)
+Definition br_taken (op fn fv fc fz : Z) : bool :=
+  match op with
+  | 16 => fn =? 0 | 48 => negb (fn =? 0)
+  | 80 => fv =? 0 | 112 => negb (fv =? 0)
+  | 144 => fc =? 0 | 176 => negb (fc =? 0)
+  | 208 => fz =? 0 | 240 => negb (fz =? 0)
+  | _ => true
+  end.
+
+(* cond_ops are exactly the opcodes of Spec/ISA.v's eight conditional-branch mnemonics, none of them is straight-line,
+   each is two bytes long whatever M / X, and br_taken tests the flag its mnemonic names *)
+Lemma cond_branch_isa : forallb (fun op => Bool.eqb (cond_branch op) (cond_mn (ISA.mnem_of op))) (map Z.of_nat (seq 0 256)) = true.
+Proof. vm_compute. reflexivity. Qed.
+Lemma cond_branch_in op : cond_branch op = true <-> In op cond_ops.
+Proof.
+  unfold cond_branch. rewrite existsb_exists. split.
+  - intros [y [Hin Hy]]. apply Z.eqb_eq in Hy. subst y. exact Hin.
+  - intro Hin. exists op. split; [exact Hin | apply Z.eqb_refl].
+Qed.
+Ltac cond_cases H :=
+  apply cond_branch_in in H; cbv [cond_ops In] in H;
+  repeat (destruct H as [H | H]; [symmetry in H; subst | ]); [ .. | contradiction ].
+Lemma cond_not_straight op : cond_branch op = true -> straight op = false.
+Proof. intro H. cond_cases H; reflexivity. Qed.
+Lemma cond_length op m8 x8 : cond_branch op = true -> ISA.op_length op m8 x8 = 2.
+Proof. intro H. cond_cases H; destruct m8, x8; reflexivity. Qed.
+Lemma cond_new_mx op m x o : cond_branch op = true -> new_m op m o = m /\ new_x op x o = x.
+Proof. intro H. cond_cases H; split; reflexivity. Qed.
+Lemma br_taken_isa op fn fv fc fz : cond_branch op = true ->
+  br_taken op fn fv fc fz =
+  match ISA.mnem_of op with
+  | BPL => fn =? 0 | BMI => negb (fn =? 0) | BVC => fv =? 0 | BVS => negb (fv =? 0)
+  | BCC => fc =? 0 | BCS => negb (fc =? 0) | BNE => fz =? 0 | BEQ => negb (fz =? 0)
+  | _ => true
+  end.
+Proof. intro H. cond_cases H; reflexivity. Qed.
+
+(* ------------------------------------------------------------------ block moves *)
+(* MVP $44, MVN $54: one byte per Step; the instruction is re-executed (PC stays) until the count C wraps, then PC
+   advances by its length 3 *)
+Definition move_op (op : Z) : bool := (op =? 68) || (op =? 84).
+Definition move_mn (mn : ISA.mnem) : bool := match mn with MVN | MVP => true | _ => false end.
+Lemma move_op_isa : forallb (fun op => Bool.eqb (move_op op) (move_mn (ISA.mnem_of op))) (map Z.of_nat (seq 0 256)) = true.
+Proof. vm_compute. reflexivity. Qed.
+Lemma move_cases op : move_op op = true -> op = 68 \/ op = 84.
+Proof. unfold move_op. intro H. apply orb_true_iff in H. destruct H as [H|H]; apply Z.eqb_eq in H; auto. Qed.
+Lemma move_not_straight op : move_op op = true -> straight op = false /\ cond_branch op = false.
+Proof. intro H. destruct (move_cases op H) as [->| ->]; split; reflexivity. Qed.
+Lemma move_length op m8 x8 : move_op op = true -> ISA.op_length op m8 x8 = 3.
+Proof. intro H. destruct (move_cases op H) as [->| ->]; destruct m8, x8; reflexivity. Qed.
+Lemma move_new_mx op m x o : move_op op = true -> new_m op m o = m /\ new_x op x o = x.
+Proof. intro H. destruct (move_cases op H) as [->| ->]; split; reflexivity. Qed.
+
 (* ------------------------------------------------------------------ the abstract CPU *)
 Section Abstract.
   Variable S : Type.
@@ -52,6 +120,8 @@ Section Abstract.
   Variables gpc grk gm gx : S -> Z.
   Variable gmem : S -> Z -> Z.
   Variable wrote : S -> S -> Z -> Prop.       (* the step reported a write to this address *)
+  Variables gfn gfv gfc gfz : S -> Z.         (* status flags N V C Z as 0 / 1 *)
+  Variable brs : Z -> bool.                   (* the conditional-branch (and block-move) opcodes admitted in programs *)
 
   Definition ok_ranges : Prop := forall s, ok s ->
     0 <= gpc s < 65536 /\ 0 <= grk s < 256 /\ (gm s = 0 \/ gm s = 1) /\ (gx s = 0 \/ gx s = 1).
@@ -64,6 +134,14 @@ Section Abstract.
       gpc s' = (gpc s + ISA.op_length op (gm s =? 1) (gx s =? 1)) mod 65536 /\
       gm s' = new_m op (gm s) (operand s) /\ gx s' = new_x op (gx s) (operand s) /\
       forall a, gmem s' a = gmem s a \/ wrote s s' a.
+
+  Definition opcode_at (s : S) : Z := gmem s (addr24 (grk s) (gpc s)) mod 256.
+
+  (* the clause for the conditional branches: if the condition is false the instruction is a two-byte no-op *)
+  Definition br_contract : Prop := forall s op, ok s -> brs op = true -> cond_branch op = true ->
+    opcode_at s = op -> br_taken op (gfn s) (gfv s) (gfc s) (gfz s) = false ->
+    exists s', step s = Some s' /\ ok s' /\ grk s' = grk s /\ gpc s' = (gpc s + 2) mod 65536 /\
+      gm s' = gm s /\ gx s' = gx s /\ forall a, gmem s' a = gmem s a.
 
   (* n steps: the addresses at which an opcode was fetched, and the final state *)
   Fixpoint fetches (n : nat) (s : S) : option (list Z * S) :=
@@ -91,6 +169,19 @@ Section Abstract.
         end
     end.
 
+  (* run hypothesis: whenever one of the first n steps starts on an admitted conditional branch, its condition is false *)
+  Fixpoint nottaken (n : nat) (s : S) : Prop :=
+    match n with
+    | O => True
+    | Datatypes.S k =>
+        (brs (opcode_at s) = true -> cond_branch (opcode_at s) = true ->
+         br_taken (opcode_at s) (gfn s) (gfv s) (gfc s) (gfz s) = false) /\
+        match step s with
+        | None => True
+        | Some s' => nottaken k s'
+        end
+    end.
+
   Lemma nowrite_mono : forall m s lo hi lo' hi', lo <= lo' -> hi' <= hi -> nowrite m s lo hi -> nowrite m s lo' hi'.
   Proof.
     induction m as [|m IHm]; intros s lo hi lo' hi' Hlo Hhi; cbn [nowrite]; [intros; exact I|].
@@ -103,12 +194,15 @@ Section Abstract.
   Definition xbit (e : em) : Z := if IsX16bit e then 0 else 1.
 
   (* what an instruction method call must amount to (shown for the regenerated descriptors by [couple_ok]):
-     byte-valued, opcode first and straight-line, as many bytes as the emit routine advances by, no label,
+     byte-valued, opcode first and straight-line or an admitted conditional branch / block move, as many bytes as the emit routine
+     advances by, a label operand only with a conditional branch,
      tracker update exactly for REP / SEP with the emitted mask, and -- whenever the width guard lets the
      call through -- as long as the architectural length under the TRACKED widths *)
   Definition ins_ok (k : ikind) (d : list Z) (l : lbl) (t : track) (g : Emitter.guard) : Prop :=
     exists opc rest,
-      d = opc :: rest /\ straight opc = true /\ bytes_ok d /\ zlen d = ins_len k /\ is_label_kind k = false /\
+      d = opc :: rest /\
+      (straight opc = true \/ (cond_branch opc = true /\ brs opc = true) \/ (move_op opc = true /\ brs opc = true)) /\ bytes_ok d /\
+      zlen d = ins_len k /\ (is_label_kind k = true -> cond_branch opc = true) /\
       (forall e, guard_ok g e = true -> zlen d = ISA.op_length opc (negb (IsM16bit e)) (negb (IsX16bit e))) /\
       match t with
       | TNone => opc <> 194 /\ opc <> 226
@@ -141,6 +235,17 @@ Section Abstract.
     | o :: r => (match o with OIns _ _ _ _ _ => [address e] | _ => [] end) ++ starts r (state_of (exec o e))
     end.
 
+  (* buffer positions of the label operands (a placeholder byte until Finalize patches it) *)
+  Fixpoint hole (ops : list op) (e : em) (i : Z) : bool :=
+    match ops with
+    | [] => false
+    | o :: r =>
+        (match o with
+         | OIns k d _ _ _ => is_label_kind k && (n e + 1 <=? i) && (i <? n e + zlen d)
+         | _ => false
+         end) || hole r (state_of (exec o e)) i
+    end.
+
   (* ---------------------------------------------------------------- facts about the emitter model *)
   Lemma apply_track_fields t e :
     buf (apply_track t e) = buf e /\ n (apply_track t e) = n e /\ address (apply_track t e) = address e /\ gen (apply_track t e) = gen e.
@@ -150,24 +255,24 @@ Section Abstract.
   Proof. unfold emitBase. destruct (gen e && baseSet e); simpl; repeat split. Qed.
 
   Lemma emitK_fields k d l e b :
-    buf e = Some b -> is_label_kind k = false -> (zlen b <? n e + zlen d) = false ->
+    buf e = Some b -> (zlen b <? n e + zlen d) = false ->
     is_refused (emitK k d l e) = false /\
     buf (state_of (emitK k d l e)) = Some (splice b (n e) d) /\ n (state_of (emitK k d l e)) = n e + zlen d /\
     address (state_of (emitK k d l e)) = w32 (address e + ins_len k) /\ flags (state_of (emitK k d l e)) = flags e.
   Proof.
-    intros Hb Hk El. destruct e as [fl gn bf nn ls ba bs ad lb m8 m16]. cbn [buf n] in Hb, El. subst bf.
+    intros Hb El. destruct e as [fl gn bf nn ls ba bs ad lb m8 m16]. cbn [buf n] in Hb, El. subst bf.
     unfold emitK, write. cbn [buf n]. rewrite El.
-    destruct k; try discriminate Hk; destruct gn; destruct bs; (split; [reflexivity|]); (split; [reflexivity|]);
+    destruct k; destruct gn; destruct bs; (split; [reflexivity|]); (split; [reflexivity|]);
       (split; [reflexivity|]); (split; reflexivity).
   Qed.
 
   Lemma exec_ins_spec k d l t g e b :
-    buf e = Some b -> is_label_kind k = false -> is_refused (exec (OIns k d l t g) e) = false ->
+    buf e = Some b -> is_refused (exec (OIns k d l t g) e) = false ->
     let e' := state_of (exec (OIns k d l t g) e) in
     guard_ok g e = true /\ n e + zlen d <= zlen b /\ buf e' = Some (splice b (n e) d) /\ n e' = n e + zlen d /\
     address e' = w32 (address e + ins_len k) /\ flags e' = flags (apply_track t e).
   Proof.
-    intros Hb Hk Hr. cbv zeta. unfold exec in *. destruct (guard_ok g e); [|discriminate].
+    intros Hb Hr. cbv zeta. unfold exec in *. destruct (guard_ok g e); [|discriminate].
     destruct (apply_track_fields t e) as [Tb [Tn [Ta Tg]]].
     split; [reflexivity|].
     assert (El : (zlen b <? n e + zlen d) = false).
@@ -176,7 +281,6 @@ Section Abstract.
     split; [apply Z.ltb_ge in El; exact El|].
     destruct (emitK_fields k d l (apply_track t e) b) as [_ [F1 [F2 [F3 F4]]]].
     - rewrite Tb. exact Hb.
-    - exact Hk.
     - rewrite Tn. exact El.
     - rewrite F1, F2, F3, F4, Tn, Ta. repeat split.
   Qed.
@@ -229,8 +333,8 @@ Section Abstract.
       + destruct (quiet_op (OAssumeSEP c) e Hop ltac:(intros; discriminate)) as [A [B _]].
         destruct (IH _ b Hr ltac:(rewrite A; exact Hb) ltac:(rewrite B; exact Hn)) as [bf [F1 [F2 [F3 F4]]]].
         exists bf. rewrite Hef. rewrite B in F3, F4. repeat split; try assumption; lia.
-      + cbn [sl_op] in Hop. destruct Hop as [opc [rest [Hd [_ [_ [Hlen [Hk _]]]]]]].
-        destruct (exec_ins_spec k d l t g e b Hb Hk Hacc) as [_ [Hroom [B1 [N1 _]]]].
+      + cbn [sl_op] in Hop. destruct Hop as [opc [rest [Hd [_ [_ [Hlen _]]]]]].
+        destruct (exec_ins_spec k d l t g e b Hb Hacc) as [_ [Hroom [B1 [N1 _]]]].
         pose proof (zlen_nonneg _ d) as Hd0.
         destruct (IH _ (splice b (n e) d) Hr B1) as [bf [F1 [F2 [F3 F4]]]].
         { rewrite N1, zlen_splice by lia. lia. }
@@ -243,6 +347,29 @@ Section Abstract.
       + destruct (quiet_op (OLabel l) e Hop ltac:(intros; discriminate)) as [A [B _]].
         destruct (IH _ b Hr ltac:(rewrite A; exact Hb) ltac:(rewrite B; exact Hn)) as [bf [F1 [F2 [F3 F4]]]].
         exists bf. rewrite Hef. rewrite B in F3, F4. repeat split; try assumption; lia.
+  Qed.
+
+  (* label operands lie strictly after the start of the instruction they belong to *)
+  Lemma hole_before : forall ops e b i, straightline ops e -> buf e = Some b -> 0 <= n e <= zlen b ->
+    i <= n e -> hole ops e i = false.
+  Proof.
+    induction ops as [|o r IH]; intros e b i Hsl Hb Hn Hi; [reflexivity|].
+    cbn [straightline] in Hsl. destruct Hsl as [Hop [Hacc Hr]]. cbn [hole].
+    destruct o as [a|c|c|k d l t g|bs|id|l]; try (cbn [sl_op] in Hop; contradiction).
+    - destruct (quiet_op (OAssumeREP c) e Hop ltac:(intros; discriminate)) as [A [B _]].
+      cbn [orb]. apply (IH _ b); [exact Hr | rewrite A; exact Hb | rewrite B; exact Hn | rewrite B; exact Hi].
+    - destruct (quiet_op (OAssumeSEP c) e Hop ltac:(intros; discriminate)) as [A [B _]].
+      cbn [orb]. apply (IH _ b); [exact Hr | rewrite A; exact Hb | rewrite B; exact Hn | rewrite B; exact Hi].
+    - cbn [sl_op] in Hop. destruct Hop as [opc [rest [Hd [_ [_ [Hlen _]]]]]].
+      destruct (exec_ins_spec k d l t g e b Hb Hacc) as [_ [Hroom [B1 [N1 _]]]].
+      pose proof (zlen_nonneg _ d) as Hd0.
+      replace (n e + 1 <=? i) with false by (symmetry; apply Z.leb_gt; lia).
+      rewrite andb_false_r. cbn [andb orb].
+      apply (IH _ (splice b (n e) d)); [exact Hr | exact B1 | rewrite N1, zlen_splice by lia; lia | rewrite N1; lia].
+    - destruct (quiet_op (OComment id) e Hop ltac:(intros; discriminate)) as [A [B _]].
+      cbn [orb]. apply (IH _ b); [exact Hr | rewrite A; exact Hb | rewrite B; exact Hn | rewrite B; exact Hi].
+    - destruct (quiet_op (OLabel l) e Hop ltac:(intros; discriminate)) as [A [B _]].
+      cbn [orb]. apply (IH _ b); [exact Hr | rewrite A; exact Hb | rewrite B; exact Hn | rewrite B; exact Hi].
   Qed.
 
   (* tracked widths after REP / SEP = what the CPU does to M / X with the same mask *)
@@ -298,21 +425,423 @@ Section Abstract.
   (* ---------------------------------------------------------------- the simulation *)
   Hypothesis Hrng : ok_ranges.
   Hypothesis Hcon : len_contract.
+  Hypothesis Hbr : br_contract.
+  (* ---------------------------------------------------------------- with block moves: the stuttering simulation *)
+  (* the clause for MVN / MVP: one Step keeps the bank and the widths, and either leaves PC on the instruction or
+     advances it by the length 3 *)
+  Definition mv_contract : Prop := forall s op, ok s -> brs op = true -> move_op op = true -> opcode_at s = op ->
+    exists s', step s = Some s' /\ ok s' /\ grk s' = grk s /\ gm s' = gm s /\ gx s' = gx s /\
+      (gpc s' = gpc s \/ gpc s' = (gpc s + 3) mod 65536) /\
+      forall a, gmem s' a = gmem s a \/ wrote s s' a.
+  Hypothesis Hmv : mv_contract.
+
+  (* each instruction start a, repeated c times *)
+  Fixpoint expand (st : list Z) (cs : list nat) : list Z :=
+    match st, cs with
+    | a :: st', c :: cs' => repeat a c ++ expand st' cs'
+    | _, _ => []
+    end.
+  (* per instruction call: is it a block move? *)
+  Fixpoint movs (ops : list op) : list bool :=
+    match ops with
+    | [] => []
+    | OIns _ d _ _ _ :: r => (match d with opc :: _ => move_op opc | [] => false end) :: movs r
+    | _ :: r => movs r
+    end.
+
+  (* outcome of at most N steps from s: k <= N steps were taken, all of them opcode fetches at instruction starts, in
+     order, an instruction being fetched more than once only if it is a block move; and either the program is finished
+     (state as in C07_couple) or the N steps are used up *)
+  Definition walk (ops : list op) (e ef : em) (bank : Z) (N : nat) (s : S) : Prop :=
+    exists k cs l sf, (k <= N)%nat /\ fetches k s = Some (l, sf) /\ l = expand (starts ops e) cs /\
+      (List.length cs <= List.length (starts ops e))%nat /\ Forall (fun c => (1 <= c)%nat) cs /\
+      Forall2 (fun (mv : bool) c => mv = false -> c = 1%nat) (firstn (List.length cs) (movs ops)) cs /\
+      ((List.length cs = List.length (starts ops e) /\ ok sf /\ grk sf = bank /\ gpc sf = address ef mod 65536 /\
+        gm sf = mbit ef /\ gx sf = xbit ef) \/ k = N).
+
+  Lemma fetches_length : forall k s l sf, fetches k s = Some (l, sf) -> List.length l = k.
+  Proof.
+    induction k as [|k IH]; intros s l sf H; cbn [fetches] in H.
+    - injection H as <- _. reflexivity.
+    - destruct (step s) as [s'|]; [|discriminate]. destruct (fetches k s') as [[l' sf']|] eqn:E; [|discriminate].
+      injection H as <- _. cbn [List.length]. f_equal. eapply IH. exact E.
+  Qed.
+
+  Lemma nowrite_mono_range : forall m s lo hi lo' hi', lo <= lo' -> hi' <= hi -> nowrite m s lo hi -> nowrite m s lo' hi'.
+  Proof. exact nowrite_mono. Qed.
+
+  Lemma starts_len_movs : forall ops e, List.length (movs ops) = List.length (starts ops e).
+  Proof.
+    induction ops as [|o r IH]; intro e; [reflexivity|].
+    destruct o; cbn [movs starts app List.length]; try (f_equal); apply IH.
+  Qed.
+
+  Lemma simulation_mv : forall ops e b bank delta,
+    straightline ops e -> buf e = Some b -> 0 <= n e <= zlen b ->
+    let ef := fst (run ops e) in
+    0 <= bank < 256 -> address e = delta + n e ->
+    bank * 65536 <= address e -> delta + n ef <= (bank + 1) * 65536 ->
+    forall N s,
+    (forall i, n e <= i < n ef -> hole ops e i = false -> gmem s (delta + i) = znth (code ef) i) ->
+    ok s -> grk s = bank -> gpc s = address e mod 65536 -> gm s = mbit e -> gx s = xbit e ->
+    nowrite N s (delta + n e) (delta + n ef) ->
+    nottaken N s ->
+    walk ops e ef bank N s.
+  Proof.
+    induction ops as [|o r IH]; intros e b bank delta Hsl Hb Hn ef Hbank Hdelta Hlo Hhi.
+    - intros N s Hload Hok Hrk Hpc Hm Hx Hnw Hnt. subst ef. cbn [run fst] in *.
+      exists O, [], [], s. cbn [starts fetches expand List.length movs firstn].
+      split; [lia|]. split; [reflexivity|]. split; [reflexivity|]. split; [lia|]. split; [constructor|]. split; [constructor|].
+      left. repeat split; assumption.
+    - cbn [straightline] in Hsl. destruct Hsl as [Hop [Hacc Hr]].
+      assert (Hef : ef = fst (run r (state_of (exec o e)))).
+      { subst ef. cbn [run]. destruct (run r (state_of (exec o e))); reflexivity. }
+      destruct (code_prefix_stable (o :: r) e b ltac:(cbn [straightline]; auto) Hb Hn) as [bf0 [_ [_ [Hnf _]]]].
+      fold ef in Hnf.
+      assert (Hquiet : (forall k d l t g, o <> OIns k d l t g) ->
+                forall N s,
+                (forall i, n e <= i < n ef -> hole (o :: r) e i = false -> gmem s (delta + i) = znth (code ef) i) ->
+                ok s -> grk s = bank -> gpc s = address e mod 65536 -> gm s = mbit e -> gx s = xbit e ->
+                nowrite N s (delta + n e) (delta + n ef) -> nottaken N s -> walk (o :: r) e ef bank N s).
+      { intros Hni N s Hload Hok Hrk Hpc Hm Hx Hnw Hnt. destruct (quiet_op o e Hop Hni) as [A [B [C [D E]]]].
+        assert (Hst : starts (o :: r) e = starts r (state_of (exec o e))).
+        { cbn [starts]. destruct o; try reflexivity. exfalso. eapply Hni. reflexivity. }
+        assert (Hmo : movs (o :: r) = movs r).
+        { cbn [movs]. destruct o; try reflexivity. exfalso. eapply Hni. reflexivity. }
+        assert (Hho : forall i, hole (o :: r) e i = hole r (state_of (exec o e)) i).
+        { intro i. cbn [hole]. destruct o; try reflexivity. exfalso. eapply Hni. reflexivity. }
+        unfold walk. rewrite Hst, Hmo. rewrite Hef in *.
+        eapply (IH _ b bank delta); try assumption; try (rewrite ?A, ?B, ?C, ?D, ?E; assumption).
+        intros i Hi Hh. apply Hload; [rewrite <- B; exact Hi | rewrite Hho; exact Hh]. }
+      destruct o as [a|c|c|k d l t g|bs|id|l]; try (apply Hquiet; intros; discriminate).
+      (* an instruction *)
+      clear Hquiet. cbn [sl_op] in Hop.
+      destruct Hop as [opc [rest [Hd [Hstr [Hbytes [Hlen [Hk [Hglen Htr]]]]]]]].
+      destruct (exec_ins_spec k d l t g e b Hb Hacc) as [Hg [Hroom [B1 [N1 [A1 F1]]]]].
+      set (e' := state_of (exec (OIns k d l t g) e)) in *.
+      pose proof (zlen_nonneg _ rest) as Hrest0.
+      assert (Hdl : zlen d = 1 + zlen rest) by (rewrite Hd; apply zlen_cons).
+      assert (Hne' : n e' <= n ef).
+      { destruct (code_prefix_stable r e' (splice b (n e) d) Hr B1) as [bf1 [_ [_ [H1 _]]]].
+        - rewrite N1, zlen_splice by lia. lia.
+        - rewrite <- Hef in H1. lia. }
+      assert (Hcode : forall j, 0 <= j < zlen d -> znth (code ef) (n e + j) = znth d j).
+      { intros j Hj.
+        destruct (code_prefix_stable r e' (splice b (n e) d) Hr B1) as [bf1 [G1 [G2 [G3 G4]]]].
+        { rewrite N1, zlen_splice by lia. lia. }
+        rewrite <- Hef in G1. unfold code. rewrite G1. rewrite G4 by (rewrite N1; lia).
+        rewrite znth_splice_in by lia. f_equal. lia. }
+      assert (Hin : address e + zlen d <= (bank + 1) * 65536) by lia.
+      assert (Hrest_hole : forall i, i <= n e' -> hole r e' i = false).
+      { intros i Hi. apply (hole_before r e' (splice b (n e) d)); [exact Hr | exact B1 | rewrite N1, zlen_splice by lia; lia | exact Hi]. }
+      assert (Hh0 : hole (OIns k d l t g :: r) e (n e) = false).
+      { cbn [hole]. fold e'. rewrite Hrest_hole by (rewrite N1; lia).
+        replace (n e + 1 <=? n e) with false by (symmetry; apply Z.leb_gt; lia). rewrite andb_false_r. reflexivity. }
+      assert (Hh1 : opc = 194 \/ opc = 226 -> zlen d = 2 -> hole (OIns k d l t g :: r) e (n e + 1) = false).
+      { intros Hrs Hz. cbn [hole]. fold e'. rewrite Hrest_hole by (rewrite N1; lia).
+        destruct (is_label_kind k); [|reflexivity].
+        specialize (Hk eq_refl). destruct Hrs as [Hrs|Hrs]; rewrite Hrs in Hk; vm_compute in Hk; discriminate Hk. }
+      assert (Hil : ins_len k = zlen d) by lia.
+      assert (Ha' : address e' = address e + zlen d).
+      { rewrite A1, Hil. apply w32_small. lia. }
+      assert (Hmov : movs (OIns k d l t g :: r) = move_op opc :: movs r) by (cbn [movs]; rewrite Hd; reflexivity).
+      unfold walk. cbn [starts app]. fold e'.
+      (* at most N steps from any state at the start of this instruction *)
+      induction N as [|N IHN]; intros s Hload Hok Hrk Hpc Hm Hx Hnw Hnt.
+      { exists O, [], [], s. cbn [fetches expand List.length firstn].
+        split; [lia|]. split; [reflexivity|]. split; [reflexivity|]. split; [lia|]. split; [constructor|]. split; [constructor|].
+        right. reflexivity. }
+      destruct (Hrng s Hok) as [Rpc [Rrk [Rm Rx]]].
+      assert (Hpc0 : gpc s = address e - bank * 65536).
+      { rewrite Hpc. symmetry. apply Z.mod_unique with bank; lia. }
+      assert (Hfetch : gmem s (addr24 (grk s) (gpc s)) mod 256 = opc).
+      { unfold addr24. rewrite Hrk, Hpc0. replace (bank * 65536 + (address e - bank * 65536)) with (delta + n e) by lia.
+        rewrite Hload by first [lia | exact Hh0]. replace (n e) with (n e + 0) by lia. rewrite Hcode by lia. rewrite Hd. cbn [znth].
+        change (Z.to_nat 0) with O. cbn [nth].
+        assert (Hb0 : is_byte opc) by (rewrite Hd in Hbytes; inversion Hbytes; assumption).
+        apply Z.mod_small. exact Hb0. }
+      assert (Ea : addr24 (grk s) (gpc s) = address e) by (unfold addr24; rewrite Hrk, Hpc0; lia).
+      (* one CPU step *)
+      assert (Hone : exists s', step s = Some s' /\ ok s' /\ grk s' = grk s /\
+                (gpc s' = (gpc s + ISA.op_length opc (gm s =? 1) (gx s =? 1)) mod 65536 \/ (move_op opc = true /\ gpc s' = gpc s)) /\
+                gm s' = new_m opc (gm s) (operand s) /\ gx s' = new_x opc (gx s) (operand s) /\
+                forall a, gmem s' a = gmem s a \/ wrote s s' a).
+      { destruct Hstr as [Hstr | [[Hcb Hbrs] | [Hmo Hbrs]]].
+        - destruct (Hcon s opc Hok Hstr Hfetch) as [s' [A2 [A3 [A4 [A5 [A6 [A7 A8]]]]]]].
+          exists s'. repeat (split; [assumption|]). split; [left; exact A5|]. repeat (split; [assumption|]). exact A8.
+        - cbn [nottaken] in Hnt. destruct Hnt as [Hnt0 _].
+          unfold opcode_at in Hnt0. rewrite Hfetch in Hnt0.
+          destruct (Hbr s opc Hok Hbrs Hcb Hfetch (Hnt0 Hbrs Hcb)) as [s' [A2 [A3 [A4 [A5 [A6 [A7 A8]]]]]]].
+          destruct (cond_new_mx opc (gm s) (gx s) (operand s) Hcb) as [Nm Nx].
+          exists s'. rewrite (cond_length opc _ _ Hcb), Nm, Nx.
+          split; [exact A2|]. split; [exact A3|]. split; [exact A4|]. split; [left; exact A5|]. split; [exact A6|]. split; [exact A7|].
+          intro a. left. apply A8.
+        - destruct (Hmv s opc Hok Hbrs Hmo Hfetch) as [s' [A2 [A3 [A4 [A5 [A6 [A7 A8]]]]]]].
+          destruct (move_new_mx opc (gm s) (gx s) (operand s) Hmo) as [Nm Nx].
+          exists s'. rewrite (move_length opc _ _ Hmo), Nm, Nx.
+          split; [exact A2|]. split; [exact A3|]. split; [exact A4|].
+          split; [destruct A7 as [A7|A7]; [right; split; assumption | left; exact A7]|].
+          split; [exact A5|]. split; [exact A6|]. exact A8. }
+      destruct Hone as [s' [Hstep [Hok' [Hrk' [Hpc' [Hm' [Hx' Hmem']]]]]]].
+      cbn [nowrite] in Hnw. rewrite Hstep in Hnw. destruct Hnw as [Hnw0 Hnw1].
+      cbn [nottaken] in Hnt. rewrite Hstep in Hnt. destruct Hnt as [_ Hnt1].
+      (* memory seen by the rest of the run *)
+      assert (Hload' : forall i, n e <= i < n ef -> hole (OIns k d l t g :: r) e i = false -> gmem s' (delta + i) = znth (code ef) i).
+      { intros i Hi Hh. destruct (Hmem' (delta + i)) as [E|W].
+        - rewrite E. apply Hload; assumption.
+        - exfalso. apply (Hnw0 (delta + i)); [lia | exact W]. }
+      destruct Hpc' as [Hpc' | [Hmo Hpc']].
+      + (* the instruction is finished: PC advanced by its length *)
+        assert (Hl : ISA.op_length opc (gm s =? 1) (gx s =? 1) = zlen d).
+        { rewrite (Hglen e Hg). f_equal.
+          - rewrite Hm. unfold mbit. destruct (IsM16bit e); reflexivity.
+          - rewrite Hx. unfold xbit. destruct (IsX16bit e); reflexivity. }
+        assert (Hmx : gm s' = mbit e' /\ gx s' = xbit e').
+        { rewrite Hm', Hx'. unfold new_m, new_x.
+          destruct t as [|c|c].
+          - destruct Htr as [N1' N2']. apply Z.eqb_neq in N1'. apply Z.eqb_neq in N2'. rewrite N1', N2'.
+            cbn [apply_track] in F1. destruct (mbit_flags e e' F1) as [Q1 Q2]. rewrite Q1, Q2, Hm, Hx. split; reflexivity.
+          - destruct Htr as [Hopc Hrest]. cbn [apply_track] in F1.
+            assert (Hop1 : operand s = c).
+            { unfold operand, addr24. rewrite Hrk, Hpc0.
+              assert (Hz : zlen d = 2) by (rewrite Hdl, Hrest; reflexivity).
+              rewrite (Z.mod_small (address e - bank * 65536 + 1) 65536) by lia.
+              replace (bank * 65536 + (address e - bank * 65536 + 1)) with (delta + (n e + 1)) by lia.
+              rewrite Hload by first [lia | apply Hh1; [left; exact Hopc | exact Hz]]. rewrite Hcode by lia. rewrite Hd, Hrest. cbn [znth]. change (Z.to_nat 1) with 1%nat. cbn [nth].
+              assert (Hb1 : is_byte c) by (rewrite Hd, Hrest in Hbytes; inversion Hbytes as [|? ? _ Hb2]; inversion Hb2; assumption).
+              apply Z.mod_small. exact Hb1. }
+            rewrite Hop1, Hopc. rewrite Z.eqb_refl.
+            destruct (mbit_flags (AssumeREP c e) e' F1) as [Q1 Q2]. destruct (track_rep_m c e) as [T1 T2].
+            rewrite Q1, Q2, T1, T2, Hm, Hx. split; reflexivity.
+          - destruct Htr as [Hopc Hrest]. cbn [apply_track] in F1.
+            assert (Hop1 : operand s = c).
+            { unfold operand, addr24. rewrite Hrk, Hpc0.
+              assert (Hz : zlen d = 2) by (rewrite Hdl, Hrest; reflexivity).
+              rewrite (Z.mod_small (address e - bank * 65536 + 1) 65536) by lia.
+              replace (bank * 65536 + (address e - bank * 65536 + 1)) with (delta + (n e + 1)) by lia.
+              rewrite Hload by first [lia | apply Hh1; [right; exact Hopc | exact Hz]]. rewrite Hcode by lia. rewrite Hd, Hrest. cbn [znth]. change (Z.to_nat 1) with 1%nat. cbn [nth].
+              assert (Hb1 : is_byte c) by (rewrite Hd, Hrest in Hbytes; inversion Hbytes as [|? ? _ Hb2]; inversion Hb2; assumption).
+              apply Z.mod_small. exact Hb1. }
+            rewrite Hop1, Hopc. change (226 =? 194) with false. rewrite Z.eqb_refl.
+            destruct (mbit_flags (AssumeSEP c e) e' F1) as [Q1 Q2]. destruct (track_sep_m c e) as [T1 T2].
+            rewrite Q1, Q2, T1, T2, Hm, Hx. split; reflexivity. }
+        destruct Hmx as [Hm1 Hx1].
+        destruct (IH e' (splice b (n e) d) bank delta Hr B1) with (N := N) (s := s') as [k' [cs' [l' [sf [Hk' [Hf [Hl' [Hlen' [Hge [Hf2 Hfin]]]]]]]]]]; try assumption.
+        * rewrite N1, zlen_splice by lia. lia.
+        * rewrite Ha', N1. lia.
+        * rewrite Ha'. lia.
+        * rewrite <- Hef. exact Hhi.
+        * rewrite <- Hef. intros i Hi Hh. apply Hload'; [rewrite N1 in Hi; lia|].
+          cbn [hole]. fold e'. rewrite Hh. rewrite N1 in Hi.
+          replace (i <? n e + zlen d) with false by (symmetry; apply Z.ltb_ge; lia). rewrite andb_false_r. reflexivity.
+        * rewrite Hrk'. exact Hrk.
+        * rewrite Hpc', Hl, Hpc0, Ha'. replace (address e - bank * 65536 + zlen d) with (address e + zlen d + (- bank) * 65536) by lia.
+          apply Z.mod_add. lia.
+        * rewrite <- Hef. rewrite N1. eapply nowrite_mono; [| |exact Hnw1]; lia.
+        * rewrite <- Hef in Hfin.
+          exists (Datatypes.S k'), (1%nat :: cs'), (address e :: l'), sf.
+          split; [lia|]. split; [cbn [fetches]; rewrite Hstep, Hf, Ea; reflexivity|].
+          split; [cbn [expand repeat app]; rewrite Hl'; reflexivity|].
+          split; [cbn [List.length]; lia|]. split; [constructor; [lia | exact Hge]|].
+          split; [rewrite Hmov; cbn [List.length firstn]; constructor; [intros; reflexivity | exact Hf2]|].
+          destruct Hfin as [[Hc Hfin]|Hfin]; [left; split; [cbn [List.length]; lia | exact Hfin] | right; lia].
+      + (* a block move that repeats itself: same instruction, one step fewer *)
+        assert (Hms : gm s' = mbit e /\ gx s' = xbit e).
+        { destruct (move_new_mx opc (gm s) (gx s) (operand s) Hmo) as [Nm Nx]. rewrite Hm', Hx', Nm, Nx. split; assumption. }
+        destruct Hms as [Hm1 Hx1].
+        destruct (IHN s') as [k' [cs' [l' [sf [Hk' [Hf [Hl' [Hlen' [Hge [Hf2 Hfin]]]]]]]]]]; try assumption.
+        * rewrite Hrk'. exact Hrk.
+        * rewrite Hpc'. exact Hpc.
+        * destruct cs' as [|c cs''].
+          -- (* nothing more was fetched: the steps are used up *)
+             cbn [expand] in Hl'. assert (Hl0 : l' = []) by (rewrite Hl'; destruct (address e :: starts r e'); reflexivity).
+             pose proof (fetches_length _ _ _ _ Hf) as Hk0. rewrite Hl0 in Hk0. cbn [List.length] in Hk0. subst k'.
+             exists 1%nat, [1%nat], [address e], sf.
+             split; [lia|]. split; [cbn [fetches]; rewrite Hstep; rewrite Hl0 in Hf; cbn [fetches] in Hf |- *; injection Hf as <-; rewrite Ea; reflexivity|].
+             split; [cbn [expand repeat app]; destruct (starts r e'); reflexivity|].
+             split; [cbn [List.length]; lia|]. split; [repeat constructor|].
+             split; [rewrite Hmov; cbn [List.length firstn]; constructor; [rewrite Hmo; discriminate | constructor]|].
+             destruct Hfin as [[Hc _]|Hfin]; [cbn [List.length] in Hc; discriminate Hc | right; lia].
+          -- exists (Datatypes.S k'), (Datatypes.S c :: cs''), (address e :: l'), sf.
+             split; [lia|]. split; [cbn [fetches]; rewrite Hstep, Hf, Ea; reflexivity|].
+             split; [cbn [expand repeat app] in Hl' |- *; rewrite Hl'; reflexivity|].
+             split; [exact Hlen'|]. split; [inversion Hge; subst; constructor; [lia | assumption]|].
+             split; [rewrite Hmov in Hf2 |- *; cbn [List.length firstn] in Hf2 |- *; inversion Hf2; subst; constructor; [rewrite Hmo; discriminate | assumption]|].
+             destruct Hfin as [Hfin|Hfin]; [left; exact Hfin | right; lia].
+  Qed.
+
+  (* C07 with block moves, over the abstract CPU: for EVERY number of steps N (the run hypotheses nowrite / nottaken
+     being made for these N steps), the first k <= N steps do not panic and fetch opcodes exactly at the instruction
+     starts the assembler reported, in order, each once -- a block move as often as it repeats itself (its count c >= 1)
+     -- and either the program is finished (state as in C07_couple) or all N steps have been taken inside the program. *)
+  Theorem C07_couple_moves : forall ops e0 b s0 N,
+    straightline ops e0 -> buf e0 = Some b -> 0 <= n e0 <= zlen b ->
+    let ef := fst (run ops e0) in
+    let bank := address e0 / 65536 in
+    0 <= address e0 < 16777216 ->
+    address e0 + (n ef - n e0) <= (bank + 1) * 65536 ->
+    (forall i, 0 <= i < n ef - n e0 -> hole ops e0 (n e0 + i) = false -> gmem s0 (address e0 + i) = znth (Bytes ef) (n e0 + i)) ->
+    ok s0 -> addr24 (grk s0) (gpc s0) = address e0 -> gm s0 = mbit e0 -> gx s0 = xbit e0 ->
+    nowrite N s0 (address e0) (address e0 + (n ef - n e0)) ->
+    nottaken N s0 ->
+    walk ops e0 ef bank N s0.
+  Proof.
+    intros ops e0 b s0 N Hsl Hb Hn ef bank Ha Hfit Hload Hok Hstart Hm Hx Hnw Hnt.
+    destruct (Hrng s0 Hok) as [Rpc [Rrk _]].
+    assert (Hbk : grk s0 = bank /\ gpc s0 = address e0 mod 65536).
+    { unfold addr24 in Hstart. unfold bank. rewrite <- Hstart. split.
+      - apply Z.div_unique_pos with (gpc s0); lia.
+      - apply Z.mod_unique_pos with (grk s0); lia. }
+    destruct Hbk as [Hrk Hpc].
+    assert (Hbank : 0 <= bank < 256).
+    { rewrite <- Hrk. exact Rrk. }
+    assert (Hlo : bank * 65536 <= address e0).
+    { unfold bank. pose proof (Z.mul_div_le (address e0) 65536 ltac:(lia)). lia. }
+    destruct (code_prefix_stable ops e0 b Hsl Hb Hn) as [bf [G1 [G2 [G3 _]]]]. fold ef in G1, G3.
+    apply (simulation_mv ops e0 b bank (address e0 - n e0) Hsl Hb Hn); try assumption; try lia.
+    - fold ef. lia.
+    - fold ef. intros i Hi Hh. replace (address e0 - n e0 + i) with (address e0 + (i - n e0)) by lia.
+      rewrite Hload by (try lia; replace (n e0 + (i - n e0)) with i by lia; exact Hh).
+      unfold Bytes. rewrite znth_ztake by lia. f_equal. lia.
+    - fold ef. replace (address e0 - n e0 + n e0) with (address e0) by lia.
+      replace (address e0 - n e0 + n ef) with (address e0 + (n ef - n e0)) by lia. exact Hnw.
+  Qed.
+
+  (* reading [expand]: removing consecutive duplicates from the fetch list gives back the instruction starts reached
+     (adjacent instruction starts differ: the addresses increase) *)
+  Fixpoint dedup (l : list Z) : list Z :=
+    match l with
+    | [] => []
+    | a :: r => match r with b :: _ => if a =? b then dedup r else a :: dedup r | [] => [a] end
+    end.
+  Fixpoint adjacent_differ (l : list Z) : Prop :=
+    match l with a :: ((b :: _) as r) => a <> b /\ adjacent_differ r | _ => True end.
+  Lemma dedup_repeat_app : forall a c l, (1 <= c)%nat -> match l with b :: _ => a <> b | [] => True end ->
+    dedup (repeat a c ++ l) = a :: dedup l.
+  Proof.
+    intros a c l Hc Hl. destruct c as [|c]; [lia|]. clear Hc. induction c as [|c IH].
+    - cbn [repeat app]. destruct l as [|b l']; [reflexivity|]. cbn [dedup]. apply Z.eqb_neq in Hl. rewrite Hl. reflexivity.
+    - change (repeat a (Datatypes.S (Datatypes.S c)) ++ l) with (a :: (a :: repeat a c ++ l)).
+      cbn [dedup]. rewrite Z.eqb_refl. exact IH.
+  Qed.
+  Lemma dedup_expand : forall st cs, adjacent_differ st -> Forall (fun c => (1 <= c)%nat) cs -> (List.length cs <= List.length st)%nat ->
+    dedup (expand st cs) = firstn (List.length cs) st.
+  Proof.
+    induction st as [|a st IH]; intros cs Had Hge Hlen.
+    - destruct cs; [reflexivity | cbn [List.length] in Hlen; lia].
+    - destruct cs as [|c cs]; [reflexivity|]. cbn [expand List.length firstn]. inversion Hge as [|? ? Hc Hge']; subst.
+      cbn [List.length] in Hlen.
+      assert (Had' : adjacent_differ st) by (destruct st; [exact I | destruct Had; assumption]).
+      rewrite dedup_repeat_app; [rewrite IH by (try assumption; lia); reflexivity | exact Hc |].
+      destruct st as [|b st']; [destruct cs; exact I|]. destruct cs as [|c2 cs2]; [exact I|].
+      cbn [expand]. inversion Hge' as [|? ? Hc2 _]; subst. destruct c2 as [|c2]; [lia|]. cbn [repeat app]. destruct Had as [Hab _]. exact Hab.
+  Qed.
+
+  (* the instruction starts increase strictly (no uint32 wrap within the program), so adjacent ones differ *)
+  Lemma starts_ge : forall ops e b, straightline ops e -> buf e = Some b -> 0 <= n e <= zlen b -> 0 <= address e ->
+    address e + (n (fst (run ops e)) - n e) < 4294967296 ->
+    forall a, In a (starts ops e) -> address e <= a.
+  Proof.
+    induction ops as [|o r IH]; intros e b Hsl Hb Hn Ha0 Hfit a Hin; [destruct Hin|].
+    cbn [straightline] in Hsl. destruct Hsl as [Hop [Hacc Hr]].
+    assert (Hef : fst (run (o :: r) e) = fst (run r (state_of (exec o e)))).
+    { cbn [run]. destruct (run r (state_of (exec o e))); reflexivity. }
+    rewrite Hef in Hfit.
+    assert (Hq : (forall k d l t g, o <> OIns k d l t g) -> address e <= a).
+    { intro Hni. destruct (quiet_op o e Hop Hni) as [A [B [C _]]].
+      assert (Hst : starts (o :: r) e = starts r (state_of (exec o e))).
+      { cbn [starts]. destruct o; try reflexivity. exfalso. eapply Hni. reflexivity. }
+      rewrite Hst in Hin. rewrite <- C.
+      apply (IH _ b); try assumption; rewrite ?A, ?B, ?C; assumption. }
+    destruct o as [a1|c|c|k d l t g|bs|id|l]; try (apply Hq; intros; discriminate).
+    clear Hq. cbn [sl_op] in Hop. destruct Hop as [opc [rest [Hd [_ [_ [Hlen _]]]]]].
+    destruct (exec_ins_spec k d l t g e b Hb Hacc) as [_ [Hroom [B1 [N1 [A1 _]]]]].
+    set (e' := state_of (exec (OIns k d l t g) e)) in *.
+    pose proof (zlen_nonneg _ rest) as Hrest0.
+    assert (Hdl : zlen d = 1 + zlen rest) by (rewrite Hd; apply zlen_cons).
+    assert (Hne' : n e' <= n (fst (run r e'))).
+    { destruct (code_prefix_stable r e' (splice b (n e) d) Hr B1) as [bf1 [_ [_ [H1 _]]]]; [rewrite N1, zlen_splice by lia; lia | lia]. }
+    assert (Ha' : address e' = address e + zlen d) by (rewrite A1, Hlen; apply w32_small; lia).
+    cbn [starts app] in Hin. fold e' in Hin. destruct Hin as [<-|Hin]; [lia|].
+    assert (address e' <= a); [|lia].
+    apply (IH e' (splice b (n e) d)); try assumption; [rewrite N1, zlen_splice by lia; lia | lia | lia].
+  Qed.
+
+  Lemma starts_adjacent : forall ops e b, straightline ops e -> buf e = Some b -> 0 <= n e <= zlen b -> 0 <= address e ->
+    address e + (n (fst (run ops e)) - n e) < 4294967296 -> adjacent_differ (starts ops e).
+  Proof.
+    induction ops as [|o r IH]; intros e b Hsl Hb Hn Ha0 Hfit; [exact I|].
+    cbn [straightline] in Hsl. destruct Hsl as [Hop [Hacc Hr]].
+    assert (Hef : fst (run (o :: r) e) = fst (run r (state_of (exec o e)))).
+    { cbn [run]. destruct (run r (state_of (exec o e))); reflexivity. }
+    rewrite Hef in Hfit.
+    assert (Hq : (forall k d l t g, o <> OIns k d l t g) -> adjacent_differ (starts (o :: r) e)).
+    { intro Hni. destruct (quiet_op o e Hop Hni) as [A [B [C _]]].
+      assert (Hst : starts (o :: r) e = starts r (state_of (exec o e))).
+      { cbn [starts]. destruct o; try reflexivity. exfalso. eapply Hni. reflexivity. }
+      rewrite Hst. apply (IH _ b); try assumption; rewrite ?A, ?B, ?C; assumption. }
+    destruct o as [a1|c|c|k d l t g|bs|id|l]; try (apply Hq; intros; discriminate).
+    clear Hq. cbn [sl_op] in Hop. destruct Hop as [opc [rest [Hd [_ [_ [Hlen _]]]]]].
+    destruct (exec_ins_spec k d l t g e b Hb Hacc) as [_ [Hroom [B1 [N1 [A1 _]]]]].
+    set (e' := state_of (exec (OIns k d l t g) e)) in *.
+    pose proof (zlen_nonneg _ rest) as Hrest0.
+    assert (Hdl : zlen d = 1 + zlen rest) by (rewrite Hd; apply zlen_cons).
+    assert (Hne' : n e' <= n (fst (run r e'))).
+    { destruct (code_prefix_stable r e' (splice b (n e) d) Hr B1) as [bf1 [_ [_ [H1 _]]]]; [rewrite N1, zlen_splice by lia; lia | lia]. }
+    assert (Ha' : address e' = address e + zlen d) by (rewrite A1, Hlen; apply w32_small; lia).
+    assert (Hn' : 0 <= n e' <= zlen (splice b (n e) d)) by (rewrite N1, zlen_splice by lia; lia).
+    pose proof (IH e' (splice b (n e) d) Hr B1 Hn' ltac:(lia) ltac:(lia)) as Hadj.
+    pose proof (starts_ge r e' (splice b (n e) d) Hr B1 Hn' ltac:(lia) ltac:(lia)) as Hge.
+    cbn [starts app]. fold e'. destruct (starts r e') as [|a2 st2] eqn:Est; [exact I|].
+    split; [|exact Hadj]. specialize (Hge a2 (or_introl eq_refl)). lia.
+  Qed.
+
+  (* the stuttering theorem in the form "fetch addresses with consecutive duplicates removed = the instruction starts" *)
+  Theorem C07_couple_moves_dedup : forall ops e0 b s0 N,
+    straightline ops e0 -> buf e0 = Some b -> 0 <= n e0 <= zlen b ->
+    let ef := fst (run ops e0) in
+    let bank := address e0 / 65536 in
+    0 <= address e0 < 16777216 ->
+    address e0 + (n ef - n e0) <= (bank + 1) * 65536 ->
+    (forall i, 0 <= i < n ef - n e0 -> hole ops e0 (n e0 + i) = false -> gmem s0 (address e0 + i) = znth (Bytes ef) (n e0 + i)) ->
+    ok s0 -> addr24 (grk s0) (gpc s0) = address e0 -> gm s0 = mbit e0 -> gx s0 = xbit e0 ->
+    nowrite N s0 (address e0) (address e0 + (n ef - n e0)) ->
+    nottaken N s0 ->
+    exists k j l sf, (k <= N)%nat /\ fetches k s0 = Some (l, sf) /\ dedup l = firstn j (starts ops e0) /\
+      ((dedup l = starts ops e0 /\ gm sf = mbit ef /\ gx sf = xbit ef /\ gpc sf = address ef mod 65536 /\ grk sf = bank) \/ k = N).
+  Proof.
+    intros ops e0 b s0 N Hsl Hb Hn ef bank Ha Hfit Hload Hok Hstart Hm Hx Hnw Hnt.
+    destruct (C07_couple_moves ops e0 b s0 N Hsl Hb Hn Ha Hfit Hload Hok Hstart Hm Hx Hnw Hnt)
+      as [k [cs [l [sf [Hk [Hf [Hl [Hlen [Hge [_ Hfin]]]]]]]]]].
+    assert (Hbk : 0 <= bank < 256).
+    { unfold bank. split; [apply Z.div_pos; lia | apply Z.div_lt_upper_bound; lia]. }
+    assert (Hadj : adjacent_differ (starts ops e0)).
+    { apply (starts_adjacent ops e0 b Hsl Hb Hn); [lia|]. fold ef. nia. }
+    assert (Hd : dedup l = firstn (List.length cs) (starts ops e0)) by (rewrite Hl; apply dedup_expand; assumption).
+    exists k, (List.length cs), l, sf. split; [exact Hk|]. split; [exact Hf|]. split; [exact Hd|].
+    destruct Hfin as [[Hc [_ [Q2 [Q3 [Q4 Q5]]]]]|Hfin]; [left | right; exact Hfin].
+    split; [rewrite Hd, Hc; apply firstn_all|]. fold ef in Q3, Q4, Q5. repeat split; assumption.
+  Qed.
+
+  (* the exact theorems (fetch addresses = starts) do not admit block moves: those stutter, see C07_couple_moves *)
+  Hypothesis Hnomv : forall op, move_op op = true -> brs op = false.
 
   (* invariant between the assembler state e (before the remaining calls) and the CPU state s:
-     delta = address - count is the load offset; everything emitted from here on is in memory *)
+     delta = address - count is the load offset; everything emitted from here on is in memory, except that
+     memory may hold anything in place of a label operand *)
   Lemma simulation : forall ops e b s bank delta,
     straightline ops e -> buf e = Some b -> 0 <= n e <= zlen b ->
     let ef := fst (run ops e) in
     0 <= bank < 256 -> address e = delta + n e ->
     bank * 65536 <= address e -> delta + n ef <= (bank + 1) * 65536 ->
-    (forall i, n e <= i < n ef -> gmem s (delta + i) = znth (code ef) i) ->
+    (forall i, n e <= i < n ef -> hole ops e i = false -> gmem s (delta + i) = znth (code ef) i) ->
     ok s -> grk s = bank -> gpc s = address e mod 65536 -> gm s = mbit e -> gx s = xbit e ->
     nowrite (List.length (starts ops e)) s (delta + n e) (delta + n ef) ->
+    nottaken (List.length (starts ops e)) s ->
     exists sf, fetches (List.length (starts ops e)) s = Some (starts ops e, sf) /\
                ok sf /\ grk sf = bank /\ gpc sf = address ef mod 65536 /\ gm sf = mbit ef /\ gx sf = xbit ef.
   Proof.
-    induction ops as [|o r IH]; intros e b s bank delta Hsl Hb Hn ef Hbank Hdelta Hlo Hhi Hload Hok Hrk Hpc Hm Hx Hnw.
+    induction ops as [|o r IH]; intros e b s bank delta Hsl Hb Hn ef Hbank Hdelta Hlo Hhi Hload Hok Hrk Hpc Hm Hx Hnw Hnt.
     - cbn [starts List.length fetches]. exists s. subst ef. cbn [run fst]. repeat split; assumption.
     - cbn [straightline] in Hsl. destruct Hsl as [Hop [Hacc Hr]].
       assert (Hef : ef = fst (run r (state_of (exec o e)))).
@@ -325,13 +854,16 @@ Section Abstract.
       { intro Hni. destruct (quiet_op o e Hop Hni) as [A [B [C [D E]]]].
         assert (Hst : starts (o :: r) e = starts r (state_of (exec o e))).
         { cbn [starts]. destruct o; try reflexivity. exfalso. eapply Hni. reflexivity. }
+        assert (Hho : forall i, hole (o :: r) e i = hole r (state_of (exec o e)) i).
+        { intro i. cbn [hole]. destruct o; try reflexivity. exfalso. eapply Hni. reflexivity. }
         rewrite Hst in *. rewrite Hef in *.
-        eapply (IH _ b s bank delta); try assumption; try (rewrite ?A, ?B, ?C, ?D, ?E; assumption). }
+        eapply (IH _ b s bank delta); try assumption; try (rewrite ?A, ?B, ?C, ?D, ?E; assumption).
+        intros i Hi Hh. apply Hload; [rewrite <- B; exact Hi | rewrite Hho; exact Hh]. }
       destruct o as [a|c|c|k d l t g|bs|id|l]; try (apply Hquiet; intros; discriminate).
       (* an instruction *)
       clear Hquiet. cbn [sl_op] in Hop.
       destruct Hop as [opc [rest [Hd [Hstr [Hbytes [Hlen [Hk [Hglen Htr]]]]]]]].
-      destruct (exec_ins_spec k d l t g e b Hb Hk Hacc) as [Hg [Hroom [B1 [N1 [A1 F1]]]]].
+      destruct (exec_ins_spec k d l t g e b Hb Hacc) as [Hg [Hroom [B1 [N1 [A1 F1]]]]].
       set (e' := state_of (exec (OIns k d l t g) e)) in *.
       pose proof (zlen_nonneg _ rest) as Hrest0.
       assert (Hdl : zlen d = 1 + zlen rest) by (rewrite Hd; apply zlen_cons).
@@ -351,13 +883,32 @@ Section Abstract.
       assert (Hin : address e + zlen d <= (bank + 1) * 65536) by lia.
       assert (Hpc0 : gpc s = address e - bank * 65536).
       { rewrite Hpc. symmetry. apply Z.mod_unique with bank; lia. }
+      (* holes of the later instructions lie after this one; this one's is not its opcode *)
+      assert (Hrest_hole : forall i, i <= n e' -> hole r e' i = false).
+      { intros i Hi. apply (hole_before r e' (splice b (n e) d)); [exact Hr | exact B1 | rewrite N1, zlen_splice by lia; lia | exact Hi]. }
+      assert (Hh0 : hole (OIns k d l t g :: r) e (n e) = false).
+      { cbn [hole]. fold e'. rewrite Hrest_hole by (rewrite N1; lia).
+        replace (n e + 1 <=? n e) with false by (symmetry; apply Z.leb_gt; lia). rewrite andb_false_r. reflexivity. }
       assert (Hfetch : gmem s (addr24 (grk s) (gpc s)) mod 256 = opc).
       { unfold addr24. rewrite Hrk, Hpc0. replace (bank * 65536 + (address e - bank * 65536)) with (delta + n e) by lia.
-        rewrite Hload by lia. replace (n e) with (n e + 0) by lia. rewrite Hcode by lia. rewrite Hd. cbn [znth].
+        rewrite Hload by first [lia | exact Hh0]. replace (n e) with (n e + 0) by lia. rewrite Hcode by lia. rewrite Hd. cbn [znth].
         change (Z.to_nat 0) with O. cbn [nth].
         assert (Hb0 : is_byte opc) by (rewrite Hd in Hbytes; inversion Hbytes; assumption).
         apply Z.mod_small. exact Hb0. }
-      destruct (Hcon s opc Hok Hstr Hfetch) as [s' [Hstep [Hok' [Hrk' [Hpc' [Hm' [Hx' Hmem']]]]]]].
+      (* one CPU step: the straight-line contract, or the not-taken clause of a conditional branch *)
+      assert (Hone : exists s', step s = Some s' /\ ok s' /\ grk s' = grk s /\
+                gpc s' = (gpc s + ISA.op_length opc (gm s =? 1) (gx s =? 1)) mod 65536 /\
+                gm s' = new_m opc (gm s) (operand s) /\ gx s' = new_x opc (gx s) (operand s) /\
+                forall a, gmem s' a = gmem s a \/ wrote s s' a).
+      { destruct Hstr as [Hstr | [[Hcb Hbrs] | [Hmo Hbrs]]]; [exact (Hcon s opc Hok Hstr Hfetch)| |rewrite (Hnomv opc Hmo) in Hbrs; discriminate Hbrs].
+        cbn [starts app List.length nottaken] in Hnt. destruct Hnt as [Hnt0 _].
+        unfold opcode_at in Hnt0. rewrite Hfetch in Hnt0.
+        destruct (Hbr s opc Hok Hbrs Hcb Hfetch (Hnt0 Hbrs Hcb)) as [s' [A2 [A3 [A4 [A5 [A6 [A7 A8]]]]]]].
+        destruct (cond_new_mx opc (gm s) (gx s) (operand s) Hcb) as [Nm Nx].
+        exists s'. rewrite (cond_length opc _ _ Hcb), Nm, Nx.
+        split; [exact A2|]. split; [exact A3|]. split; [exact A4|]. split; [exact A5|]. split; [exact A6|]. split; [exact A7|].
+        intro a. left. apply A8. }
+      destruct Hone as [s' [Hstep [Hok' [Hrk' [Hpc' [Hm' [Hx' Hmem']]]]]]].
       (* the CPU's length = the assembler's *)
       assert (Hl : ISA.op_length opc (gm s =? 1) (gx s =? 1) = zlen d).
       { rewrite (Hglen e Hg). f_equal.
@@ -367,6 +918,11 @@ Section Abstract.
       assert (Ha' : address e' = address e + zlen d).
       { rewrite A1, Hil. apply w32_small. lia. }
       (* M / X after = tracker after *)
+      (* REP / SEP are never label forms: their operand byte is not a hole *)
+      assert (Hh1 : opc = 194 \/ opc = 226 -> zlen d = 2 -> hole (OIns k d l t g :: r) e (n e + 1) = false).
+      { intros Hrs Hz. cbn [hole]. fold e'. rewrite Hrest_hole by (rewrite N1; lia).
+        destruct (is_label_kind k); [|reflexivity].
+        specialize (Hk eq_refl). destruct Hrs as [Hrs|Hrs]; rewrite Hrs in Hk; vm_compute in Hk; discriminate Hk. }
       assert (Hmx : gm s' = mbit e' /\ gx s' = xbit e').
       { rewrite Hm', Hx'. unfold new_m, new_x.
         destruct t as [|c|c].
@@ -378,7 +934,7 @@ Section Abstract.
             assert (Hz : zlen d = 2) by (rewrite Hdl, Hrest; reflexivity).
             rewrite (Z.mod_small (address e - bank * 65536 + 1) 65536) by lia.
             replace (bank * 65536 + (address e - bank * 65536 + 1)) with (delta + (n e + 1)) by lia.
-            rewrite Hload by lia. rewrite Hcode by lia. rewrite Hd, Hrest. cbn [znth]. change (Z.to_nat 1) with 1%nat. cbn [nth].
+            rewrite Hload by first [lia | apply Hh1; [left; reflexivity | exact Hz]]. rewrite Hcode by lia. rewrite Hd, Hrest. cbn [znth]. change (Z.to_nat 1) with 1%nat. cbn [nth].
             assert (Hb1 : is_byte c) by (rewrite Hd, Hrest in Hbytes; inversion Hbytes as [|? ? _ Hb2]; inversion Hb2; assumption).
             apply Z.mod_small. exact Hb1. }
           rewrite Hop1. rewrite Z.eqb_refl.
@@ -390,21 +946,25 @@ Section Abstract.
             assert (Hz : zlen d = 2) by (rewrite Hdl, Hrest; reflexivity).
             rewrite (Z.mod_small (address e - bank * 65536 + 1) 65536) by lia.
             replace (bank * 65536 + (address e - bank * 65536 + 1)) with (delta + (n e + 1)) by lia.
-            rewrite Hload by lia. rewrite Hcode by lia. rewrite Hd, Hrest. cbn [znth]. change (Z.to_nat 1) with 1%nat. cbn [nth].
+            rewrite Hload by first [lia | apply Hh1; [right; reflexivity | exact Hz]]. rewrite Hcode by lia. rewrite Hd, Hrest. cbn [znth]. change (Z.to_nat 1) with 1%nat. cbn [nth].
             assert (Hb1 : is_byte c) by (rewrite Hd, Hrest in Hbytes; inversion Hbytes as [|? ? _ Hb2]; inversion Hb2; assumption).
             apply Z.mod_small. exact Hb1. }
           rewrite Hop1. change (226 =? 194) with false. rewrite Z.eqb_refl.
           destruct (mbit_flags (AssumeSEP c e) e' F1) as [Q1 Q2]. destruct (track_sep_m c e) as [T1 T2].
           rewrite Q1, Q2, T1, T2, Hm, Hx. split; reflexivity. }
       destruct Hmx as [Hm1 Hx1].
-      cbn [starts app List.length] in Hnw |- *. change (state_of (exec (OIns k d l t g) e)) with e' in Hnw |- *. cbn [nowrite] in Hnw. rewrite Hstep in Hnw. destruct Hnw as [Hnw0 Hnw1].
+      cbn [starts app List.length] in Hnw, Hnt |- *. change (state_of (exec (OIns k d l t g) e)) with e' in Hnw, Hnt |- *.
+      cbn [nowrite] in Hnw. rewrite Hstep in Hnw. destruct Hnw as [Hnw0 Hnw1].
+      cbn [nottaken] in Hnt. rewrite Hstep in Hnt. destruct Hnt as [_ Hnt1].
       destruct (IH e' (splice b (n e) d) s' bank delta Hr B1) as [sf [Hf [Q1 [Q2 [Q3 [Q4 Q5]]]]]]; try assumption.
       + rewrite N1, zlen_splice by lia. lia.
       + rewrite Ha', N1. lia.
       + rewrite Ha'. lia.
       + rewrite <- Hef. exact Hhi.
-      + rewrite <- Hef. intros i Hi. destruct (Hmem' (delta + i)) as [E|W].
-        * rewrite E. apply Hload. rewrite N1 in Hi. lia.
+      + rewrite <- Hef. intros i Hi Hh. destruct (Hmem' (delta + i)) as [E|W].
+        * rewrite E. apply Hload; [rewrite N1 in Hi; lia|].
+          cbn [hole]. fold e'. rewrite Hh. rewrite N1 in Hi.
+          replace (i <? n e + zlen d) with false by (symmetry; apply Z.ltb_ge; lia). rewrite andb_false_r. reflexivity.
         * exfalso. apply (Hnw0 (delta + i)); [rewrite N1 in Hi; lia | exact W].
       + rewrite Hrk'. exact Hrk.
       + rewrite Hpc', Hl, Hpc0, Ha'. replace (address e - bank * 65536 + zlen d) with (address e + zlen d + (- bank) * 65536) by lia.
@@ -418,20 +978,24 @@ Section Abstract.
 
   (* C07, over the abstract CPU.  e0 = the assembler at its first emission (base set, any Assume* calls
      made): the CPU starts at PC() of e0 with M / X := the tracked widths of e0; the program is loaded where
-     the assembler put it and lies within one bank; no executed instruction writes into the program. *)
-  Theorem C07_couple : forall ops e0 b s0,
+     the assembler put it and lies within one bank; no executed instruction writes into the program; whenever
+     the CPU reaches a conditional branch the condition is false.
+     General form: memory may hold ANY byte at the position of a label operand (before Finalize the assembler has
+     a placeholder there, after Finalize the displacement: a branch that is not taken never uses it). *)
+  Theorem C07_couple_patched : forall ops e0 b s0,
     straightline ops e0 -> buf e0 = Some b -> 0 <= n e0 <= zlen b ->
     let ef := fst (run ops e0) in
     let bank := address e0 / 65536 in
     0 <= address e0 < 16777216 ->
     address e0 + (n ef - n e0) <= (bank + 1) * 65536 ->
-    (forall i, 0 <= i < n ef - n e0 -> gmem s0 (address e0 + i) = znth (Bytes ef) (n e0 + i)) ->
+    (forall i, 0 <= i < n ef - n e0 -> hole ops e0 (n e0 + i) = false -> gmem s0 (address e0 + i) = znth (Bytes ef) (n e0 + i)) ->
     ok s0 -> addr24 (grk s0) (gpc s0) = address e0 -> gm s0 = mbit e0 -> gx s0 = xbit e0 ->
     nowrite (List.length (starts ops e0)) s0 (address e0) (address e0 + (n ef - n e0)) ->
+    nottaken (List.length (starts ops e0)) s0 ->
     exists sf, fetches (List.length (starts ops e0)) s0 = Some (starts ops e0, sf) /\
                gm sf = mbit ef /\ gx sf = xbit ef /\ gpc sf = address ef mod 65536 /\ grk sf = bank.
   Proof.
-    intros ops e0 b s0 Hsl Hb Hn ef bank Ha Hfit Hload Hok Hstart Hm Hx Hnw.
+    intros ops e0 b s0 Hsl Hb Hn ef bank Ha Hfit Hload Hok Hstart Hm Hx Hnw Hnt.
     destruct (Hrng s0 Hok) as [Rpc [Rrk _]].
     assert (Hbk : grk s0 = bank /\ gpc s0 = address e0 mod 65536).
     { unfold addr24 in Hstart. unfold bank. rewrite <- Hstart. split.
@@ -445,13 +1009,74 @@ Section Abstract.
     destruct (code_prefix_stable ops e0 b Hsl Hb Hn) as [bf [G1 [G2 [G3 _]]]]. fold ef in G1, G3.
     destruct (simulation ops e0 b s0 bank (address e0 - n e0) Hsl Hb Hn) as [sf [F [Q1 [Q2 [Q3 [Q4 Q5]]]]]]; try assumption; try lia.
     - fold ef. lia.
-    - fold ef. intros i Hi. replace (address e0 - n e0 + i) with (address e0 + (i - n e0)) by lia.
-      rewrite Hload by lia. unfold Bytes. rewrite znth_ztake by lia. f_equal. lia.
+    - fold ef. intros i Hi Hh. replace (address e0 - n e0 + i) with (address e0 + (i - n e0)) by lia.
+      rewrite Hload by (try lia; replace (n e0 + (i - n e0)) with i by lia; exact Hh).
+      unfold Bytes. rewrite znth_ztake by lia. f_equal. lia.
     - fold ef. replace (address e0 - n e0 + n e0) with (address e0) by lia.
       replace (address e0 - n e0 + n ef) with (address e0 + (n ef - n e0)) by lia. exact Hnw.
     - exists sf. fold ef in Q3, Q4, Q5. repeat split; assumption.
   Qed.
+
+  (* ... in particular with the bytes exactly as the assembler holds them (placeholders included) *)
+  Theorem C07_couple : forall ops e0 b s0,
+    straightline ops e0 -> buf e0 = Some b -> 0 <= n e0 <= zlen b ->
+    let ef := fst (run ops e0) in
+    let bank := address e0 / 65536 in
+    0 <= address e0 < 16777216 ->
+    address e0 + (n ef - n e0) <= (bank + 1) * 65536 ->
+    (forall i, 0 <= i < n ef - n e0 -> gmem s0 (address e0 + i) = znth (Bytes ef) (n e0 + i)) ->
+    ok s0 -> addr24 (grk s0) (gpc s0) = address e0 -> gm s0 = mbit e0 -> gx s0 = xbit e0 ->
+    nowrite (List.length (starts ops e0)) s0 (address e0) (address e0 + (n ef - n e0)) ->
+    nottaken (List.length (starts ops e0)) s0 ->
+    exists sf, fetches (List.length (starts ops e0)) s0 = Some (starts ops e0, sf) /\
+               gm sf = mbit ef /\ gx sf = xbit ef /\ gpc sf = address ef mod 65536 /\ grk sf = bank.
+  Proof.
+    intros ops e0 b s0 Hsl Hb Hn ef bank Ha Hfit Hload Hok Hstart Hm Hx Hnw Hnt.
+    apply (C07_couple_patched ops e0 b s0); try assumption.
+    intros i Hi _. apply Hload. exact Hi.
+  Qed.
 End Abstract.
+
+(* the statement of the previous version -- no branch instruction at all in the program -- is the instance
+   brs := fun _ => false: the branch clause and the run hypothesis [nottaken] are then vacuous *)
+Lemma nottaken_none : forall S step gpc grk gmem gfn gfv gfc gfz k s,
+  nottaken S step gpc grk gmem gfn gfv gfc gfz (fun _ => false) k s.
+Proof.
+  intros S step gpc grk gmem gfn gfv gfc gfz. induction k as [|k IH]; intro s; cbn [nottaken]; [exact I|].
+  split; [discriminate|]. destruct (step s); [apply IH | exact I].
+Qed.
+
+Theorem C07_couple_nobranch : forall S step ok gpc grk gm gx gmem wrote,
+  ok_ranges S ok gpc grk gm gx -> len_contract S step ok gpc grk gm gx gmem wrote ->
+  forall ops e0 b s0,
+  straightline (fun _ => false) ops e0 -> buf e0 = Some b -> 0 <= n e0 <= zlen b ->
+  let ef := fst (run ops e0) in
+  let bank := address e0 / 65536 in
+  0 <= address e0 < 16777216 ->
+  address e0 + (n ef - n e0) <= (bank + 1) * 65536 ->
+  (forall i, 0 <= i < n ef - n e0 -> gmem s0 (address e0 + i) = znth (Bytes ef) (n e0 + i)) ->
+  ok s0 -> addr24 (grk s0) (gpc s0) = address e0 -> gm s0 = mbit e0 -> gx s0 = xbit e0 ->
+  nowrite S step wrote (List.length (starts ops e0)) s0 (address e0) (address e0 + (n ef - n e0)) ->
+  exists sf, fetches S step gpc grk (List.length (starts ops e0)) s0 = Some (starts ops e0, sf) /\
+             gm sf = mbit ef /\ gx sf = xbit ef /\ gpc sf = address ef mod 65536 /\ grk sf = bank.
+Proof.
+  intros S step ok gpc grk gm gx gmem wrote Hrng Hcon ops e0 b s0 Hsl Hb Hn ef bank Ha Hfit Hload Hok Hst Hm Hx Hnw.
+  apply (C07_couple S step ok gpc grk gm gx gmem wrote (fun _ => 0) (fun _ => 0) (fun _ => 0) (fun _ => 0) (fun _ => false)
+           Hrng Hcon ltac:(intros s op _ Hf; discriminate Hf) ltac:(intros; reflexivity) ops e0 b s0); try assumption.
+  apply nottaken_none.
+Qed.
+
+(* an instruction call of the previous shape (straight-line opcode, no label) is one of the present shape *)
+Lemma ins_ok_nobranch : forall brs k d l t g,
+  (exists opc rest, d = opc :: rest /\ straight opc = true /\ bytes_ok d /\ zlen d = ins_len k /\ is_label_kind k = false /\
+     (forall e, guard_ok g e = true -> zlen d = ISA.op_length opc (negb (IsM16bit e)) (negb (IsX16bit e))) /\
+     match t with TNone => opc <> 194 /\ opc <> 226 | TRep c => opc = 194 /\ rest = [c] | TSep c => opc = 226 /\ rest = [c] end) ->
+  ins_ok brs k d l t g.
+Proof.
+  intros brs k d l t g [opc [rest [H1 [H2 [H3 [H4 [H5 [H6 H7]]]]]]]].
+  exists opc, rest. split; [exact H1|]. split; [left; exact H2|]. split; [exact H3|]. split; [exact H4|].
+  split; [rewrite H5; discriminate|]. split; assumption.
+Qed.
 
 (* ------------------------------------------------------------------ from the regenerated descriptors *)
 Local Open Scope string_scope.
@@ -474,20 +1099,22 @@ Definition track_of (d : desc) (args : list Z) : track :=
   | ESep i => TSep (eval_b args (BPar i 0))
   end.
 
-(* the call of method d with arguments args, as an operation of Model/Emitter.v *)
-Definition op_of_call (d : desc) (args : list Z) : option op :=
+(* the call of method d with arguments args (and label l, for a label-taking method), as an operation of
+   Model/Emitter.v *)
+Definition op_of_call_l (d : desc) (args : list Z) (l : lbl) : option op :=
   match kind_of (d_kind d) with
-  | Some k => Some (OIns k (emit_bytes d args) nolbl (track_of d args) (guard_of (d_guard d)))
+  | Some k => Some (OIns k (emit_bytes d args) (if is_label_kind k then l else nolbl) (track_of d args) (guard_of (d_guard d)))
   | None => None
   end.
+Definition op_of_call (d : desc) (args : list Z) : option op := op_of_call_l d args nolbl.
 
 Definition bexp_byte (b : bexp) : bool := match b with BConst v => (0 <=? v) && (v <? 256) | BPar _ _ => true end.
 
 (* the per-descriptor check (computed per run on the regenerated descriptors) *)
-Definition couple_ok (d : desc) : bool :=
+Definition couple_ok (brs : Z -> bool) (d : desc) : bool :=
   match d_bytes d, kind_of (d_kind d) with
   | BConst opc :: rest, Some k =>
-      straight opc && forallb bexp_byte (d_bytes d) && negb (is_label_kind k)
+      (straight opc || (cond_branch opc || move_op opc) && brs opc) && forallb bexp_byte (d_bytes d) && (negb (is_label_kind k) || cond_branch opc)
       && (1 + EmitSpec.zlength rest =? ins_len k)
       && forallb (fun mx : bool * bool =>
                     panics_b (d_guard d) (fst mx) (snd mx)
@@ -514,25 +1141,31 @@ Proof. destruct g; simpl; try reflexivity; rewrite ?negb_involutive; reflexivity
 Lemma zlen_zlength {A} (l : list A) : zlen l = EmitSpec.zlength l.
 Proof. reflexivity. Qed.
 
-Theorem couple_ok_ins : forall d args, couple_ok d = true -> args_ok d args ->
-  exists k, op_of_call d args = Some (OIns k (emit_bytes d args) nolbl (track_of d args) (guard_of (d_guard d))) /\
-            ins_ok k (emit_bytes d args) nolbl (track_of d args) (guard_of (d_guard d)).
+Theorem couple_ok_ins : forall brs d args l, couple_ok brs d = true -> args_ok d args ->
+  exists k, op_of_call_l d args l = Some (OIns k (emit_bytes d args) (if is_label_kind k then l else nolbl) (track_of d args) (guard_of (d_guard d))) /\
+            ins_ok brs k (emit_bytes d args) (if is_label_kind k then l else nolbl) (track_of d args) (guard_of (d_guard d)).
 Proof.
-  intros d args H Hargs. unfold couple_ok in H. unfold op_of_call.
+  intros brs d args l H Hargs. unfold couple_ok in H. unfold op_of_call_l.
   destruct (d_bytes d) as [|[opc|? ?] rest] eqn:Eb; try discriminate.
   destruct (kind_of (d_kind d)) as [k|] eqn:Ek; [|discriminate].
-  remember (straight opc) as st eqn:Hst.
+  remember (straight opc || (cond_branch opc || move_op opc) && brs opc) as st eqn:Hst.
+  remember (negb (is_label_kind k) || cond_branch opc) as lk eqn:Hlk.
   repeat (apply andb_true_iff in H; destruct H as [H ?]).
-  subst st. rename H into Hstr, H0 into Heff, H1 into Hlens, H2 into Hk, H3 into Hnl, H4 into Hby.
+  subst st lk. rename H into Hstr, H0 into Heff, H1 into Hlens, H2 into Hk, H3 into Hnl, H4 into Hby.
   exists k. split; [reflexivity|].
-  apply Z.eqb_eq in Hk. apply negb_true_iff in Hnl.
+  apply Z.eqb_eq in Hk.
   assert (Hem : emit_bytes d args = opc :: map (eval_b args) rest) by (unfold emit_bytes; rewrite Eb; reflexivity).
   assert (Hzl : zlen (emit_bytes d args) = 1 + EmitSpec.zlength rest).
   { rewrite Hem. unfold zlen, EmitSpec.zlength. cbn [List.length]. rewrite map_length. lia. }
-  exists opc, (map (eval_b args) rest). split; [exact Hem|]. split; [exact Hstr|]. split.
+  exists opc, (map (eval_b args) rest). split; [exact Hem|]. split.
+  { apply orb_true_iff in Hstr. destruct Hstr as [Hs|Hs]; [left; exact Hs|].
+    right. apply andb_true_iff in Hs. destruct Hs as [Hs Hb]. apply orb_true_iff in Hs. destruct Hs as [Hs|Hs]; [left | right]; split; assumption. }
+  split.
   { unfold emit_bytes, bytes_ok. rewrite Forall_forall. intros v Hv. apply in_map_iff in Hv. destruct Hv as [bx [<- Hin]].
     apply eval_b_byte. rewrite forallb_forall in Hby. apply Hby. rewrite <- Eb. exact Hin. }
-  split; [lia|]. split; [exact Hnl|]. split.
+  split; [lia|]. split.
+  { intro Hl. rewrite Hl in Hnl. exact Hnl. }
+  split.
   - intros e Hg. rewrite guard_of_ok in Hg. apply negb_true_iff in Hg.
     pose proof (bools4_all _ Hlens (IsM16bit e) (IsX16bit e)) as Hl. cbn [fst snd] in Hl. rewrite Hg in Hl. cbn [orb] in Hl.
     apply Z.eqb_eq in Hl. lia.
@@ -592,12 +1225,12 @@ Definition ex_ops : list op :=
     OIns E3 [162; 1; 2] nolbl TNone GX16 ].         (* LDX #$0201 *)
 
 Ltac ex_ins :=
-  eexists; eexists; split; [reflexivity|]; split; [reflexivity|]; split;
-  [ repeat constructor; unfold is_byte; lia |]; split; [reflexivity|]; split; [reflexivity|]; split;
+  eexists; eexists; split; [reflexivity|]; split; [first [left; reflexivity | right; left; split; reflexivity | right; right; split; reflexivity]|]; split;
+  [ repeat constructor; unfold is_byte; lia |]; split; [reflexivity|]; split; [first [discriminate | reflexivity]|]; split;
   [ intros e; unfold guard_ok; destruct (IsM16bit e), (IsX16bit e); cbn; intro; try reflexivity; try discriminate
   | cbn; try (split; [reflexivity | reflexivity]); try (split; discriminate) ].
 
-Example ex_straightline : straightline ex_ops ex_e0.
+Example ex_straightline : straightline (fun _ => false) ex_ops ex_e0.
 Proof.
   unfold ex_ops. cbn [straightline]. repeat split; try reflexivity; try ex_ins.
 Qed.
@@ -611,3 +1244,53 @@ Proof. split; reflexivity. Qed.
 (* the wrong-width immediate is refused: LDA #imm8 while the tracker says 16 bit *)
 Example ex_refused : is_refused (exec (OIns E2 [169; 7] nolbl TNone GM8) (state_of (exec (OREP 48) ex_e0))) = true.
 Proof. reflexivity. Qed.
+
+(* ... and one with conditional branches (not taken after LDA #$80: Z = 0, N = 1), a label form among them *)
+Definition ex_ops_br : list op :=
+  [ OSEP 32;                                        (* SEP #$20 *)
+    OIns E2 [169; 128] nolbl TNone GM8;             (* LDA #$80 *)
+    OIns E2L [240; 255] 7%N TNone Emitter.GNone;    (* BEQ label7  (placeholder $FF) *)
+    OIns E2 [16; 5] nolbl TNone Emitter.GNone;      (* BPL +5 *)
+    OREP 16;                                        (* REP #$10 *)
+    OIns E3 [162; 1; 2] nolbl TNone GX16 ].         (* LDX #$0201 *)
+
+Example ex_straightline_br : straightline cond_branch ex_ops_br ex_e0.
+Proof.
+  unfold ex_ops_br. cbn [straightline]. repeat split; try reflexivity; try ex_ins.
+Qed.
+
+Example ex_starts_br : starts ex_ops_br ex_e0 = [32768; 32770; 32772; 32774; 32776; 32778].
+Proof. reflexivity. Qed.
+
+(* the only label operand is the sixth byte *)
+Example ex_hole_br : map (hole ex_ops_br ex_e0) [0; 1; 2; 3; 4; 5; 6; 7; 8; 9; 10; 11; 12] =
+  [false; false; false; false; false; true; false; false; false; false; false; false; false].
+Proof. reflexivity. Qed.
+
+(* a branch is not a straight-line program of the previous version *)
+Example ex_branch_excluded : ~ straightline (fun _ => false) ex_ops_br ex_e0.
+Proof.
+  unfold ex_ops_br. cbn [straightline]. intros [_ [_ [_ [_ [[opc [rest [Hd [Hs _]]]] _]]]]].
+  injection Hd as <- _. destruct Hs as [Hs|[[_ Hs]|[_ Hs]]]; discriminate Hs.
+Qed.
+
+(* ... and one with a block move: MVN #$7E,#$7F; NOP at $8000.  With C = 2 the CPU fetches $8000 three times, then $8003 *)
+Definition ex_adm (op : Z) : bool := cond_branch op || move_op op.
+Definition ex_ops_mv : list op :=
+  [ OIns E3 [84; 126; 127] nolbl TNone Emitter.GNone;    (* MVN *)
+    OIns E1 [234] nolbl TNone Emitter.GNone ].           (* NOP *)
+Example ex_straightline_mv : straightline ex_adm ex_ops_mv ex_e0.
+Proof.
+  unfold ex_ops_mv. cbn [straightline]. repeat split; try reflexivity; try ex_ins.
+Qed.
+Example ex_movs : movs ex_ops_mv = [true; false] /\ starts ex_ops_mv ex_e0 = [32768; 32771].
+Proof. split; reflexivity. Qed.
+Example ex_expand : expand [32768; 32771] [3%nat; 1%nat] = [32768; 32768; 32768; 32771] /\
+                    dedup [32768; 32768; 32768; 32771] = [32768; 32771].
+Proof. split; reflexivity. Qed.
+(* a block move is not a program of the exact theorem *)
+Example ex_move_excluded : ~ straightline cond_branch ex_ops_mv ex_e0.
+Proof.
+  unfold ex_ops_mv. cbn [straightline]. intros [[opc [rest [Hd [Hs _]]]] _].
+  injection Hd as <- _. destruct Hs as [Hs|[[Hs _]|[_ Hs]]]; discriminate Hs.
+Qed.
